@@ -269,7 +269,9 @@ def worker_e2e(rec, shard, nshards, length, two_marker_tps, all_positions, seed)
             # bystander: a row that fails its own validation and carries no marker, inserted anywhere, changes nothing for
             # the other rows (whether or not a failed row takes part in the bookkeeping - it has nothing to contribute)
             if ok and len(hist) <= 2 and any("delay" in k for k, _ in combo):
-                positions = range(len(srows) + 1) if all_positions else (len(srows),)
+                # quick: after the last row, and before the first one *at the first row's own onset* (a failed row that
+                # leads a group of rows sharing an onset)
+                positions = range(len(srows) + 1) if all_positions else (0, len(srows))
                 for p, btext in [(p, b) for p in positions for b in (("Zzqnonsense", "Red") if all_positions else ("Zzqnonsense",))]:
                     t_ins = (float(srows[p][0]) if p < len(srows) else float(srows[-1][0]) + 1.0)
                     brows = srows[:p] + [(t_ins, btext)] + srows[p:]
